@@ -454,7 +454,7 @@ def r12_14_packed_words_are_built_alike(ctx: Ctx) -> RuleResult:
     Python integers are unbounded: `x & 0xFFFFFFFF` turns the negative word of a year <= 0 into a positive one that decodes to
     the same fields but is a different value for `==` and `hash`.  All assignments to a shift-packed field of a value class
     therefore agree on whether (and with what) the whole word is masked."""
-    from ..kit import own_nodes
+    from ..kit import inline_locals, inline_simple_call, own_nodes
 
     rr = RuleResult("R12.14", "every construction form of a raw-compared packed word builds the same integer: the whole-word mask (or its absence) is the same in all assignments", min_instances=2)
     M = ctx.M
@@ -468,9 +468,13 @@ def r12_14_packed_words_are_built_alike(ctx: Ctx) -> RuleResult:
                 continue
             for n in own_nodes(f.node):
                 if isinstance(n, (ast.Assign, ast.AnnAssign)) and getattr(n, "value", None) is not None:
+                    # the packing may stand in locals or in a one-line helper: look at the expression with both expanded
+                    v = inline_locals(f.node, n.value)
+                    if isinstance(v, ast.Call):
+                        v = inline_simple_call(ctx.R, v, f) or v
                     for t in [n.target] if isinstance(n, ast.AnnAssign) else n.targets:
-                        if isinstance(t, ast.Attribute) and isinstance(t.value, ast.Name) and t.value.id in (f.self_name, "self") and any(isinstance(x, ast.BinOp) and isinstance(x.op, ast.LShift) for x in ast.walk(n.value)):
-                            sites.setdefault(t.attr, []).append((f, n))
+                        if isinstance(t, ast.Attribute) and isinstance(t.value, ast.Name) and t.value.id in (f.self_name, "self") and any(isinstance(x, ast.BinOp) and isinstance(x.op, ast.LShift) for x in ast.walk(v)):
+                            sites.setdefault(t.attr, []).append((f, n, v))
         for fld, ss in sorted(sites.items()):
             if len(ss) < 2:
                 continue
@@ -484,7 +488,7 @@ def r12_14_packed_words_are_built_alike(ctx: Ctx) -> RuleResult:
                             return k
                 return None
 
-            masks = [(mask(n.value), f, n) for f, n in ss]
+            masks = [(mask(v), f, n) for f, n, v in ss]
             kinds = {m for m, _f, _n in masks}
             if len(kinds) == 1:
                 rr.ok({"type": tname, "field": fld, "forms": len(ss), "whole-word mask": next(iter(kinds))})
